@@ -22,10 +22,16 @@ operands (and the modulus) in ANY way.
 a word of the CALLER's frame) although it has no stack argument; the value is not used, but the word must be readable
 (hypothesis `hcw`).
 
-Proofs: `JediVerif/Proofs/Thumb1Mul{Infra,Code,Macros,Rows,Mul,…}.lean` — the 32×32→64 macro block is given a contract once
+The three Montgomery routines end with `bl embedded_pairing_core_arch_armv6_m_fpbase_384_reduce` (fp.cpp: `res->reduce(*a, *p)`), which the
+machine model executes by its C++ meaning (both 12-word objects are read, then `a` or `a − p` is stored): `res` may therefore overlap `p`
+as far as these theorems go; what C++ does for a partial overlap of `res` and `p` is outside the model.  The call is made with
+SP = entry SP − 132, i.e. SP ≡ 4 (mod 8) when the entry SP is 8-byte aligned as AAPCS demands — AAPCS asks for 8-byte alignment at
+a public interface; the last conjunct of the three theorems says exactly when the model's `callSpMisaligned` flag is raised.
+
+Proofs: `JediVerif/Proofs/Thumb1Mul{Infra,Code,Macros,Rows,Mul,SqrRows,Sqr,MontRows,Extern,Mont,Fp}.lean` — the 32×32→64 macro block is given a contract once
 (`Thumb1.macMulAC_spec`, …), rows are compositions proved once for a symbolic row index, routines are compositions of rows.
 -/
-import JediVerif.Proofs.Thumb1MulMul
+import JediVerif.Proofs.Thumb1MulFp
 import JediVerif.Properties.C03c
 
 set_option exponentiation.threshold 800
@@ -35,16 +41,26 @@ open Jedi Jedi.Impl
 open Jedi.X86 (limbs limbs_WF limbs_length)
 open Jedi.Gen.AsmV6M
 
-private theorem pow32_24 : ((2 : ℕ) ^ 32) ^ 24 = 2 ^ 768 := by rw [← Nat.pow_mul]
+private theorem pow32_12' : ((2 : ℕ) ^ 32) ^ 12 = 2 ^ 384 := by rw [← Nat.pow_mul]
+private theorem pow64_6'' : ((2 : ℕ) ^ 64) ^ 6 = 2 ^ 384 := by rw [← Nat.pow_mul]
 
-/-! ## BigInt<768> = BigInt<384> × BigInt<384> -/
+private theorem limbs32_lt' (m : Nat → Thumb1.Word) (p : Nat) : val (2 ^ 32) (Thumb1.limbs32 m p 12) < 2 ^ 384 := by
+  have := val_lt (Thumb1.limbs32_WF m p 12); rwa [Thumb1.limbs32_length, pow32_12'] at this
+
+/-- two residues `< P` of the same `T·2^{-384}` are equal (`2^384` is invertible modulo `P` because `inv·P ≡ −1 mod 2^32`) -/
+private theorem mont_unique {P T x y inv : Nat} (hinv : (inv * P + 1) % 2 ^ 32 = 0) (hx : x < P) (hy : y < P)
+    (hxm : (x * 2 ^ 384) % P = T % P) (hym : (y * 2 ^ 384) % P = T % P) : x = y := by
+  have hc : Nat.gcd P (2 ^ 384) = 1 := by have := coprime_of_inv hinv 12; rwa [pow32_12'] at this
+  have := eq_mod_of_mul_R hc hx (hxm.trans hym.symm)
+  rwa [Nat.mod_eq_of_lt hy] at this
+
+/-! ## BigInt<768> = BigInt<384> × BigInt<384>, BigInt<384>² -/
 
 /-- ARMv6-M `bigint_768_multiply`: `res = a · b` (twenty-four 32-bit limbs); `res` may overlap `a`, `b` in any way. -/
 theorem armv6m_bigint_768_multiply (s : Thumb1.State) (pr pa pb : Thumb1.Word) (fuel : Nat) (hfuel : 3593 ≤ fuel)
-    (hst : s.status = .running) (hpc : s.pc = 0) (h0 : s.r0 = pr) (h1 : s.r1 = pa) (h2 : s.r2 = pb) (hlr : s.lr.toNat % 2 = 1)
-    (hr : Thumb1.Buf s pr 24 true) (ha : Thumb1.Buf s pa 12 false) (hb : Thumb1.Buf s pb 12 false)
-    (hstk : Thumb1.Stack s 33) (hcw : s.readable s.sp.toNat = true)
-    (hrs : Thumb1.OffStack s 33 pr 24) (has : Thumb1.OffStack s 33 pa 12) (hbs : Thumb1.OffStack s 33 pb 12) :
+    (hst : s.status = .running) (hpc : s.pc = 0) (h0 : s.r0 = pr) (h1 : s.r1 = pa) (h2 : s.r2 = pb) (hlr : s.lr.toNat % 2 = 1) (hr : Thumb1.Buf s pr 24 true) (ha : Thumb1.Buf s pa 12 false)
+    (hb : Thumb1.Buf s pb 12 false) (hstk : Thumb1.Stack s 33) (hcw : s.readable s.sp.toNat = true) (hrs : Thumb1.OffStack s 33 pr 24) (has : Thumb1.OffStack s 33 pa 12)
+    (hbs : Thumb1.OffStack s 33 pb 12) :
     Thumb1.Returned s (Thumb1.run embedded_pairing_core_arch_armv6_m_bigint_768_multiply s fuel) ∧
     val (2 ^ 32) (Thumb1.limbs32 (Thumb1.run embedded_pairing_core_arch_armv6_m_bigint_768_multiply s fuel).mem pr.toNat 24)
       = val (2 ^ 32) (Thumb1.limbs32 s.mem pa.toNat 12) * val (2 ^ 32) (Thumb1.limbs32 s.mem pb.toNat 12) ∧
@@ -56,10 +72,9 @@ theorem armv6m_bigint_768_multiply (s : Thumb1.State) (pr pa pb : Thumb1.Word) (
 
 /-- … hence the limbs of the portable `BigInt::multiply` at base 2^32 (model `mulLoop`, contract `C02.bigint_multiply`). -/
 theorem armv6m_bigint_768_multiply_eq_portable (s : Thumb1.State) (pr pa pb : Thumb1.Word) (fuel : Nat) (hfuel : 3593 ≤ fuel)
-    (hst : s.status = .running) (hpc : s.pc = 0) (h0 : s.r0 = pr) (h1 : s.r1 = pa) (h2 : s.r2 = pb) (hlr : s.lr.toNat % 2 = 1)
-    (hr : Thumb1.Buf s pr 24 true) (ha : Thumb1.Buf s pa 12 false) (hb : Thumb1.Buf s pb 12 false)
-    (hstk : Thumb1.Stack s 33) (hcw : s.readable s.sp.toNat = true)
-    (hrs : Thumb1.OffStack s 33 pr 24) (has : Thumb1.OffStack s 33 pa 12) (hbs : Thumb1.OffStack s 33 pb 12) :
+    (hst : s.status = .running) (hpc : s.pc = 0) (h0 : s.r0 = pr) (h1 : s.r1 = pa) (h2 : s.r2 = pb) (hlr : s.lr.toNat % 2 = 1) (hr : Thumb1.Buf s pr 24 true) (ha : Thumb1.Buf s pa 12 false)
+    (hb : Thumb1.Buf s pb 12 false) (hstk : Thumb1.Stack s 33) (hcw : s.readable s.sp.toNat = true) (hrs : Thumb1.OffStack s 33 pr 24) (has : Thumb1.OffStack s 33 pa 12)
+    (hbs : Thumb1.OffStack s 33 pb 12) :
     Thumb1.limbs32 (Thumb1.run embedded_pairing_core_arch_armv6_m_bigint_768_multiply s fuel).mem pr.toNat 24
       = mulLoop (2 ^ 32) (Thumb1.limbs32 s.mem pa.toNat 12) (Thumb1.limbs32 s.mem pb.toNat 12) := by
   obtain ⟨-, hv, -⟩ := armv6m_bigint_768_multiply s pr pa pb fuel hfuel hst hpc h0 h1 h2 hlr hr ha hb hstk hcw hrs has hbs
@@ -71,10 +86,9 @@ theorem armv6m_bigint_768_multiply_eq_portable (s : Thumb1.State) (pr pa pb : Th
 have the same values. -/
 theorem armv6m_bigint_768_multiply_agrees_aarch64 (s₁ : Thumb1.State) (s₂ : A64.State) (pr₁ pa₁ pb₁ : Thumb1.Word) (pr₂ pa₂ pb₂ : A64.Word)
     (f₁ f₂ : Nat) (hf₁ : 3593 ≤ f₁) (hf₂ : 187 ≤ f₂)
-    (hst₁ : s₁.status = .running) (hpc₁ : s₁.pc = 0) (h0₁ : s₁.r0 = pr₁) (h1₁ : s₁.r1 = pa₁) (h2₁ : s₁.r2 = pb₁) (hlr₁ : s₁.lr.toNat % 2 = 1)
-    (hr₁ : Thumb1.Buf s₁ pr₁ 24 true) (ha₁ : Thumb1.Buf s₁ pa₁ 12 false) (hb₁ : Thumb1.Buf s₁ pb₁ 12 false)
-    (hstk₁ : Thumb1.Stack s₁ 33) (hcw₁ : s₁.readable s₁.sp.toNat = true)
-    (hrs₁ : Thumb1.OffStack s₁ 33 pr₁ 24) (has₁ : Thumb1.OffStack s₁ 33 pa₁ 12) (hbs₁ : Thumb1.OffStack s₁ 33 pb₁ 12)
+    (hst₁ : s₁.status = .running) (hpc₁ : s₁.pc = 0) (h0₁ : s₁.r0 = pr₁) (h1₁ : s₁.r1 = pa₁) (h2₁ : s₁.r2 = pb₁) (hlr₁ : s₁.lr.toNat % 2 = 1) (hr₁ : Thumb1.Buf s₁ pr₁ 24 true)
+    (ha₁ : Thumb1.Buf s₁ pa₁ 12 false) (hb₁ : Thumb1.Buf s₁ pb₁ 12 false) (hstk₁ : Thumb1.Stack s₁ 33) (hcw₁ : s₁.readable s₁.sp.toNat = true) (hrs₁ : Thumb1.OffStack s₁ 33 pr₁ 24)
+    (has₁ : Thumb1.OffStack s₁ 33 pa₁ 12) (hbs₁ : Thumb1.OffStack s₁ 33 pb₁ 12)
     (hst₂ : s₂.status = .running) (hpc₂ : s₂.pc = 0) (h0₂ : s₂.x0 = pr₂) (h1₂ : s₂.x1 = pa₂) (h2₂ : s₂.x2 = pb₂)
     (hr₂ : A64.Buf s₂ pr₂ 12 true) (ha₂ : A64.Buf s₂ pa₂ 6 false) (hb₂ : A64.Buf s₂ pb₂ 6 false)
     (hstk₂ : A64.Stack s₂ 5) (hrs₂ : A64.OffStack s₂ 5 pr₂ 12) (has₂ : A64.OffStack s₂ 5 pa₂ 6) (hbs₂ : A64.OffStack s₂ 5 pb₂ 6)
@@ -85,5 +99,349 @@ theorem armv6m_bigint_768_multiply_agrees_aarch64 (s₁ : Thumb1.State) (s₂ : 
   obtain ⟨-, v1, -⟩ := armv6m_bigint_768_multiply s₁ pr₁ pa₁ pb₁ f₁ hf₁ hst₁ hpc₁ h0₁ h1₁ h2₁ hlr₁ hr₁ ha₁ hb₁ hstk₁ hcw₁ hrs₁ has₁ hbs₁
   obtain ⟨-, v2, -⟩ := aarch64_bigint_768_multiply s₂ pr₂ pa₂ pb₂ f₂ hf₂ hst₂ hpc₂ h0₂ h1₂ h2₂ hr₂ ha₂ hb₂ hstk₂ hrs₂ has₂ hbs₂
   rw [v1, v2, hA, hB]
+
+/-- ARMv6-M `bigint_768_square`: `res = a²` (twenty-four 32-bit limbs); `res` may overlap `a` in any way. -/
+theorem armv6m_bigint_768_square (s : Thumb1.State) (pr pa : Thumb1.Word) (fuel : Nat) (hfuel : 1925 ≤ fuel)
+    (hst : s.status = .running) (hpc : s.pc = 0) (h0 : s.r0 = pr) (h1 : s.r1 = pa) (hlr : s.lr.toNat % 2 = 1) (hr : Thumb1.Buf s pr 24 true) (ha : Thumb1.Buf s pa 12 false)
+    (hstk : Thumb1.Stack s 32) (hrs : Thumb1.OffStack s 32 pr 24) (has : Thumb1.OffStack s 32 pa 12) :
+    Thumb1.Returned s (Thumb1.run embedded_pairing_core_arch_armv6_m_bigint_768_square s fuel) ∧
+    val (2 ^ 32) (Thumb1.limbs32 (Thumb1.run embedded_pairing_core_arch_armv6_m_bigint_768_square s fuel).mem pr.toNat 24)
+      = val (2 ^ 32) (Thumb1.limbs32 s.mem pa.toNat 12) * val (2 ^ 32) (Thumb1.limbs32 s.mem pa.toNat 12) ∧
+    (∀ k, ¬(pr.toNat ≤ k ∧ k < pr.toNat + 96) → ¬(s.sp.toNat - 128 ≤ k ∧ k < s.sp.toNat) →
+      (Thumb1.run embedded_pairing_core_arch_armv6_m_bigint_768_square s fuel).mem k = s.mem k) := by
+  obtain ⟨s', h, hret, rest⟩ := Thumb1.bigint_768_square_run s pr pa hst hpc h0 h1 hlr hr ha hstk hrs has
+  rw [Thumb1.run_fuel h hret.halted fuel hfuel]
+  exact ⟨hret, rest⟩
+
+/-- … hence the limbs of the portable `BigInt::square` at base 2^32 (model `sqrLoop`, contract `C02.bigint_square`) — and of `multiply(a, a)`. -/
+theorem armv6m_bigint_768_square_eq_portable (s : Thumb1.State) (pr pa : Thumb1.Word) (fuel : Nat) (hfuel : 1925 ≤ fuel)
+    (hst : s.status = .running) (hpc : s.pc = 0) (h0 : s.r0 = pr) (h1 : s.r1 = pa) (hlr : s.lr.toNat % 2 = 1) (hr : Thumb1.Buf s pr 24 true) (ha : Thumb1.Buf s pa 12 false)
+    (hstk : Thumb1.Stack s 32) (hrs : Thumb1.OffStack s 32 pr 24) (has : Thumb1.OffStack s 32 pa 12) :
+    Thumb1.limbs32 (Thumb1.run embedded_pairing_core_arch_armv6_m_bigint_768_square s fuel).mem pr.toNat 24
+      = sqrLoop (2 ^ 32) (Thumb1.limbs32 s.mem pa.toNat 12) := by
+  obtain ⟨-, hv, -⟩ := armv6m_bigint_768_square s pr pa fuel hfuel hst hpc h0 h1 hlr hr ha hstk hrs has
+  obtain ⟨w, l, v⟩ := C02.bigint_square (B := 2 ^ 32) (by norm_num) (Thumb1.limbs32_WF s.mem pa.toNat 12)
+    (by rw [Thumb1.limbs32_length]; omega)
+  exact val_inj (Thumb1.limbs32_WF _ _ _) w (by rw [l, Thumb1.limbs32_length, Thumb1.limbs32_length]) (by rw [hv, v])
+
+/-- … and the number the AArch64 routine (`C03.aarch64_bigint_768_square`) leaves, on states whose operand has the same value. -/
+theorem armv6m_bigint_768_square_agrees_aarch64 (s₁ : Thumb1.State) (s₂ : A64.State) (pr₁ pa₁ : Thumb1.Word) (pr₂ pa₂ : A64.Word)
+    (f₁ f₂ : Nat) (hf₁ : 1925 ≤ f₁) (hf₂ : 110 ≤ f₂)
+    (hst₁ : s₁.status = .running) (hpc₁ : s₁.pc = 0) (h0₁ : s₁.r0 = pr₁) (h1₁ : s₁.r1 = pa₁) (hlr₁ : s₁.lr.toNat % 2 = 1) (hr₁ : Thumb1.Buf s₁ pr₁ 24 true) (ha₁ : Thumb1.Buf s₁ pa₁ 12 false)
+    (hstk₁ : Thumb1.Stack s₁ 32) (hrs₁ : Thumb1.OffStack s₁ 32 pr₁ 24) (has₁ : Thumb1.OffStack s₁ 32 pa₁ 12)
+    (hst₂ : s₂.status = .running) (hpc₂ : s₂.pc = 0) (h0₂ : s₂.x0 = pr₂) (h1₂ : s₂.x1 = pa₂)
+    (hr₂ : A64.Buf s₂ pr₂ 12 true) (ha₂ : A64.Buf s₂ pa₂ 6 false)
+    (hstk₂ : A64.Stack s₂ 2) (hrs₂ : A64.OffStack s₂ 2 pr₂ 12) (has₂ : A64.OffStack s₂ 2 pa₂ 6)
+    (hA : val (2 ^ 32) (Thumb1.limbs32 s₁.mem pa₁.toNat 12) = val (2 ^ 64) (limbs s₂.mem pa₂.toNat 6)) :
+    val (2 ^ 32) (Thumb1.limbs32 (Thumb1.run embedded_pairing_core_arch_armv6_m_bigint_768_square s₁ f₁).mem pr₁.toNat 24)
+      = val (2 ^ 64) (limbs (A64.run Gen.AsmA64.embedded_pairing_core_arch_aarch64_bigint_768_square s₂ f₂).mem pr₂.toNat 12) := by
+  obtain ⟨-, v1, -⟩ := armv6m_bigint_768_square s₁ pr₁ pa₁ f₁ hf₁ hst₁ hpc₁ h0₁ h1₁ hlr₁ hr₁ ha₁ hstk₁ hrs₁ has₁
+  obtain ⟨-, v2, -⟩ := aarch64_bigint_768_square s₂ pr₂ pa₂ f₂ hf₂ hst₂ hpc₂ h0₂ h1₂ hr₂ ha₂ hstk₂ hrs₂ has₂
+  rw [v1, v2, hA]
+
+/-! ## FpBase<384>::montgomery_reduce -/
+
+/-- ARMv6-M `fpbase_384_montgomery_reduce`: `res < P` and `res · 2^384 ≡ T (mod P)`; `res` may overlap `T` in any way.
+Side conditions as for the other back ends: `inv·P ≡ −1 (mod 2^32)`, `T < P·2^384`, `2P ≤ 2^384` (the meta-carry out of the last row is dropped,
+and `fpbase_384_reduce` subtracts `P` at most once). -/
+theorem armv6m_fpbase_384_montgomery_reduce (s : Thumb1.State) (pr pt pp inv : Thumb1.Word) (fuel : Nat) (hfuel : 3567 ≤ fuel)
+    (hst : s.status = .running) (hpc : s.pc = 0) (h0 : s.r0 = pr) (h1 : s.r1 = pt) (h2 : s.r2 = pp) (h3 : s.r3 = inv) (hlr : s.lr.toNat % 2 = 1) (hr : Thumb1.Buf s pr 12 true)
+    (ht : Thumb1.Buf s pt 24 false) (hp : Thumb1.Buf s pp 12 false) (hstk : Thumb1.Stack s 33) (hrs : Thumb1.OffStack s 33 pr 12) (hts : Thumb1.OffStack s 33 pt 24)
+    (hps : Thumb1.OffStack s 33 pp 12) (hinv : (inv.toNat * val (2 ^ 32) (Thumb1.limbs32 s.mem pp.toNat 12) + 1) % 2 ^ 32 = 0) (hT : val (2 ^ 32) (Thumb1.limbs32 s.mem pt.toNat 24) < val (2 ^ 32) (Thumb1.limbs32 s.mem pp.toNat 12) * 2 ^ 384)
+    (h2P : 2 * val (2 ^ 32) (Thumb1.limbs32 s.mem pp.toNat 12) ≤ 2 ^ 384) :
+    Thumb1.Returned s (Thumb1.run embedded_pairing_core_arch_armv6_m_fpbase_384_montgomery_reduce s fuel) ∧
+    val (2 ^ 32) (Thumb1.limbs32 (Thumb1.run embedded_pairing_core_arch_armv6_m_fpbase_384_montgomery_reduce s fuel).mem pr.toNat 12) < val (2 ^ 32) (Thumb1.limbs32 s.mem pp.toNat 12) ∧
+    (val (2 ^ 32) (Thumb1.limbs32 (Thumb1.run embedded_pairing_core_arch_armv6_m_fpbase_384_montgomery_reduce s fuel).mem pr.toNat 12) * 2 ^ 384) % val (2 ^ 32) (Thumb1.limbs32 s.mem pp.toNat 12)
+      = (val (2 ^ 32) (Thumb1.limbs32 s.mem pt.toNat 24)) % val (2 ^ 32) (Thumb1.limbs32 s.mem pp.toNat 12) ∧
+    (∀ k, ¬(pr.toNat ≤ k ∧ k < pr.toNat + 48) → ¬(s.sp.toNat - 132 ≤ k ∧ k < s.sp.toNat) →
+      (Thumb1.run embedded_pairing_core_arch_armv6_m_fpbase_384_montgomery_reduce s fuel).mem k = s.mem k) ∧
+    (Thumb1.run embedded_pairing_core_arch_armv6_m_fpbase_384_montgomery_reduce s fuel).callSpMisaligned = (s.callSpMisaligned || (s.sp.toNat - 132) % 8 != 0) := by
+  obtain ⟨s', h, hret, rest⟩ := Thumb1.fpbase_384_montgomery_reduce_run s pr pt pp inv hst hpc h0 h1 h2 h3 hlr hr ht hp hstk hrs hts hps hinv hT h2P
+  rw [Thumb1.run_fuel h hret.halted fuel hfuel]
+  exact ⟨hret, rest⟩
+
+/-- … hence the limbs of the portable `FpBase::montgomery_reduce` at base 2^32 (model `montReduce`, contract `C02.montgomery_reduce`). -/
+theorem armv6m_fpbase_384_montgomery_reduce_eq_portable (s : Thumb1.State) (pr pt pp inv : Thumb1.Word) (fuel : Nat) (hfuel : 3567 ≤ fuel)
+    (hst : s.status = .running) (hpc : s.pc = 0) (h0 : s.r0 = pr) (h1 : s.r1 = pt) (h2 : s.r2 = pp) (h3 : s.r3 = inv) (hlr : s.lr.toNat % 2 = 1) (hr : Thumb1.Buf s pr 12 true)
+    (ht : Thumb1.Buf s pt 24 false) (hp : Thumb1.Buf s pp 12 false) (hstk : Thumb1.Stack s 33) (hrs : Thumb1.OffStack s 33 pr 12) (hts : Thumb1.OffStack s 33 pt 24)
+    (hps : Thumb1.OffStack s 33 pp 12) (hinv : (inv.toNat * val (2 ^ 32) (Thumb1.limbs32 s.mem pp.toNat 12) + 1) % 2 ^ 32 = 0) (hT : val (2 ^ 32) (Thumb1.limbs32 s.mem pt.toNat 24) < val (2 ^ 32) (Thumb1.limbs32 s.mem pp.toNat 12) * 2 ^ 384)
+    (h2P : 2 * val (2 ^ 32) (Thumb1.limbs32 s.mem pp.toNat 12) ≤ 2 ^ 384) :
+    Thumb1.limbs32 (Thumb1.run embedded_pairing_core_arch_armv6_m_fpbase_384_montgomery_reduce s fuel).mem pr.toNat 12
+      = montReduce (2 ^ 32) 12 (Thumb1.limbs32 s.mem pt.toNat 24) (Thumb1.limbs32 s.mem pp.toNat 12) inv.toNat := by
+  obtain ⟨-, hlt, hmod, -⟩ := armv6m_fpbase_384_montgomery_reduce s pr pt pp inv fuel hfuel hst hpc h0 h1 h2 h3 hlr hr ht hp hstk hrs hts hps hinv hT h2P
+  obtain ⟨w, l, plt, pmod⟩ := C02.montgomery_reduce (B := 2 ^ 32) (n := 12) (inv := inv.toNat)
+    (Thumb1.limbs32_WF s.mem pt.toNat 24) (Thumb1.limbs32_WF s.mem pp.toNat 12) (Thumb1.limbs32_length _ _ _) (by omega) (Thumb1.limbs32_length _ _ _) hinv
+    (by rw [pow32_12']; exact hT) (by rw [pow32_12']; exact h2P)
+  rw [pow32_12'] at pmod
+  exact val_inj (Thumb1.limbs32_WF _ _ _) w (by rw [l, Thumb1.limbs32_length]) (mont_unique hinv hlt plt hmod pmod)
+
+/-- … and the number the AArch64 routine (`C03.aarch64_fpbase_384_montgomery_reduce`) leaves, on states with the same `T` and `P` (each
+with its own `inv`: `inv₁·P ≡ −1 mod 2^32`, `inv₂·P ≡ −1 mod 2^64`). -/
+theorem armv6m_fpbase_384_montgomery_reduce_agrees_aarch64 (s₁ : Thumb1.State) (s₂ : A64.State) (pr₁ pt₁ pp₁ inv₁ : Thumb1.Word) (pr₂ pt₂ pp₂ inv₂ : A64.Word)
+    (f₁ f₂ : Nat) (hf₁ : 3567 ≤ f₁) (hf₂ : 239 ≤ f₂)
+    (hst₁ : s₁.status = .running) (hpc₁ : s₁.pc = 0) (h0₁ : s₁.r0 = pr₁) (h1₁ : s₁.r1 = pt₁) (h2₁ : s₁.r2 = pp₁) (h3₁ : s₁.r3 = inv₁) (hlr₁ : s₁.lr.toNat % 2 = 1)
+    (hr₁ : Thumb1.Buf s₁ pr₁ 12 true) (ht₁ : Thumb1.Buf s₁ pt₁ 24 false) (hp₁ : Thumb1.Buf s₁ pp₁ 12 false) (hstk₁ : Thumb1.Stack s₁ 33) (hrs₁ : Thumb1.OffStack s₁ 33 pr₁ 12)
+    (hts₁ : Thumb1.OffStack s₁ 33 pt₁ 24) (hps₁ : Thumb1.OffStack s₁ 33 pp₁ 12) (hinv₁ : (inv₁.toNat * val (2 ^ 32) (Thumb1.limbs32 s₁.mem pp₁.toNat 12) + 1) % 2 ^ 32 = 0)
+    (hT₁ : val (2 ^ 32) (Thumb1.limbs32 s₁.mem pt₁.toNat 24) < val (2 ^ 32) (Thumb1.limbs32 s₁.mem pp₁.toNat 12) * 2 ^ 384) (h2P₁ : 2 * val (2 ^ 32) (Thumb1.limbs32 s₁.mem pp₁.toNat 12) ≤ 2 ^ 384)
+    (hst₂ : s₂.status = .running) (hpc₂ : s₂.pc = 0) (h0₂ : s₂.x0 = pr₂) (h1₂ : s₂.x1 = pt₂) (h2₂ : s₂.x2 = pp₂) (h3₂ : s₂.x3 = inv₂)
+    (hr₂ : A64.Buf s₂ pr₂ 6 true) (ht₂ : A64.Buf s₂ pt₂ 12 false) (hp₂ : A64.Buf s₂ pp₂ 6 false)
+    (hstk₂ : A64.Stack s₂ 4) (hrs₂ : A64.OffStack s₂ 4 pr₂ 6) (hts₂ : A64.OffStack s₂ 4 pt₂ 12) (hps₂ : A64.OffStack s₂ 4 pp₂ 6)
+    (hinv₂ : (inv₂.toNat * val (2 ^ 64) (limbs s₂.mem pp₂.toNat 6) + 1) % 2 ^ 64 = 0)
+    (hTe : val (2 ^ 32) (Thumb1.limbs32 s₁.mem pt₁.toNat 24) = val (2 ^ 64) (limbs s₂.mem pt₂.toNat 12))
+    (hPe : val (2 ^ 32) (Thumb1.limbs32 s₁.mem pp₁.toNat 12) = val (2 ^ 64) (limbs s₂.mem pp₂.toNat 6)) :
+    val (2 ^ 32) (Thumb1.limbs32 (Thumb1.run embedded_pairing_core_arch_armv6_m_fpbase_384_montgomery_reduce s₁ f₁).mem pr₁.toNat 12)
+      = val (2 ^ 64) (limbs (A64.run Gen.AsmA64.embedded_pairing_core_arch_aarch64_fpbase_384_montgomery_reduce s₂ f₂).mem pr₂.toNat 6) := by
+  obtain ⟨-, l1, m1, -⟩ := armv6m_fpbase_384_montgomery_reduce s₁ pr₁ pt₁ pp₁ inv₁ f₁ hf₁ hst₁ hpc₁ h0₁ h1₁ h2₁ h3₁ hlr₁ hr₁ ht₁ hp₁ hstk₁ hrs₁ hts₁ hps₁ hinv₁ hT₁ h2P₁
+  obtain ⟨-, l2, m2, -⟩ := aarch64_fpbase_384_montgomery_reduce s₂ pr₂ pt₂ pp₂ inv₂ f₂ hf₂ hst₂ hpc₂ h0₂ h1₂ h2₂ h3₂ hr₂ ht₂ hp₂ hstk₂ hrs₂ hts₂ hps₂ hinv₂
+    (by rw [← hTe, ← hPe]; exact hT₁) (by rw [← hPe]; exact h2P₁)
+  rw [← hPe] at l2 m2; rw [← hTe] at m2
+  exact mont_unique hinv₁ l1 l2 m1 m2
+
+/-! ## the fused FpBase<384>::multiply / square -/
+
+/-- ARMv6-M `fpbase_384_multiply` (`inv` is the fifth argument, the word at the entry SP): `res < P` and `res · 2^384 ≡ a · b (mod P)`;
+`res` may overlap `a`, `b` in any way. -/
+theorem armv6m_fpbase_384_multiply (s : Thumb1.State) (pr pa pb pp inv : Thumb1.Word) (fuel : Nat) (hfuel : 7123 ≤ fuel)
+    (hst : s.status = .running) (hpc : s.pc = 0) (h0 : s.r0 = pr) (h1 : s.r1 = pa) (h2 : s.r2 = pb) (h3 : s.r3 = pp) (hlr : s.lr.toNat % 2 = 1) (h4 : s.mem s.sp.toNat = inv)
+    (hcw : s.readable s.sp.toNat = true) (hr : Thumb1.Buf s pr 12 true) (ha : Thumb1.Buf s pa 12 false) (hb : Thumb1.Buf s pb 12 false) (hp : Thumb1.Buf s pp 12 false)
+    (hstk : Thumb1.Stack s 33) (hrs : Thumb1.OffStack s 33 pr 12) (has : Thumb1.OffStack s 33 pa 12) (hbs : Thumb1.OffStack s 33 pb 12) (hps : Thumb1.OffStack s 33 pp 12)
+    (hinv : (inv.toNat * val (2 ^ 32) (Thumb1.limbs32 s.mem pp.toNat 12) + 1) % 2 ^ 32 = 0) (hAB : val (2 ^ 32) (Thumb1.limbs32 s.mem pa.toNat 12) * val (2 ^ 32) (Thumb1.limbs32 s.mem pb.toNat 12) < val (2 ^ 32) (Thumb1.limbs32 s.mem pp.toNat 12) * 2 ^ 384)
+    (h2P : 2 * val (2 ^ 32) (Thumb1.limbs32 s.mem pp.toNat 12) ≤ 2 ^ 384) :
+    Thumb1.Returned s (Thumb1.run embedded_pairing_core_arch_armv6_m_fpbase_384_multiply s fuel) ∧
+    val (2 ^ 32) (Thumb1.limbs32 (Thumb1.run embedded_pairing_core_arch_armv6_m_fpbase_384_multiply s fuel).mem pr.toNat 12) < val (2 ^ 32) (Thumb1.limbs32 s.mem pp.toNat 12) ∧
+    (val (2 ^ 32) (Thumb1.limbs32 (Thumb1.run embedded_pairing_core_arch_armv6_m_fpbase_384_multiply s fuel).mem pr.toNat 12) * 2 ^ 384) % val (2 ^ 32) (Thumb1.limbs32 s.mem pp.toNat 12)
+      = (val (2 ^ 32) (Thumb1.limbs32 s.mem pa.toNat 12) * val (2 ^ 32) (Thumb1.limbs32 s.mem pb.toNat 12)) % val (2 ^ 32) (Thumb1.limbs32 s.mem pp.toNat 12) ∧
+    (∀ k, ¬(pr.toNat ≤ k ∧ k < pr.toNat + 48) → ¬(s.sp.toNat - 132 ≤ k ∧ k < s.sp.toNat) →
+      (Thumb1.run embedded_pairing_core_arch_armv6_m_fpbase_384_multiply s fuel).mem k = s.mem k) ∧
+    (Thumb1.run embedded_pairing_core_arch_armv6_m_fpbase_384_multiply s fuel).callSpMisaligned = (s.callSpMisaligned || (s.sp.toNat - 132) % 8 != 0) := by
+  obtain ⟨s', h, hret, rest⟩ := Thumb1.fpbase_384_multiply_run s pr pa pb pp inv hst hpc h0 h1 h2 h3 hlr h4 hcw hr ha hb hp hstk hrs has hbs hps hinv hAB h2P
+  rw [Thumb1.run_fuel h hret.halted fuel hfuel]
+  exact ⟨hret, rest⟩
+
+/-- … hence, for operands `< P`, the limbs of the portable `FpBase::multiply` at base 2^32 (model `fpMul` = `mulLoop` then `montReduce`,
+contract `C02.fp_multiply`). -/
+theorem armv6m_fpbase_384_multiply_eq_portable (s : Thumb1.State) (pr pa pb pp inv : Thumb1.Word) (fuel : Nat) (hfuel : 7123 ≤ fuel)
+    (hst : s.status = .running) (hpc : s.pc = 0) (h0 : s.r0 = pr) (h1 : s.r1 = pa) (h2 : s.r2 = pb) (h3 : s.r3 = pp) (hlr : s.lr.toNat % 2 = 1) (h4 : s.mem s.sp.toNat = inv)
+    (hcw : s.readable s.sp.toNat = true) (hr : Thumb1.Buf s pr 12 true) (ha : Thumb1.Buf s pa 12 false) (hb : Thumb1.Buf s pb 12 false) (hp : Thumb1.Buf s pp 12 false)
+    (hstk : Thumb1.Stack s 33) (hrs : Thumb1.OffStack s 33 pr 12) (has : Thumb1.OffStack s 33 pa 12) (hbs : Thumb1.OffStack s 33 pb 12) (hps : Thumb1.OffStack s 33 pp 12)
+    (hinv : (inv.toNat * val (2 ^ 32) (Thumb1.limbs32 s.mem pp.toNat 12) + 1) % 2 ^ 32 = 0) (hA : val (2 ^ 32) (Thumb1.limbs32 s.mem pa.toNat 12) < val (2 ^ 32) (Thumb1.limbs32 s.mem pp.toNat 12))
+    (hB : val (2 ^ 32) (Thumb1.limbs32 s.mem pb.toNat 12) < val (2 ^ 32) (Thumb1.limbs32 s.mem pp.toNat 12)) (h2P : 2 * val (2 ^ 32) (Thumb1.limbs32 s.mem pp.toNat 12) ≤ 2 ^ 384) :
+    Thumb1.limbs32 (Thumb1.run embedded_pairing_core_arch_armv6_m_fpbase_384_multiply s fuel).mem pr.toNat 12
+      = fpMul (2 ^ 32) 12 (Thumb1.limbs32 s.mem pa.toNat 12) (Thumb1.limbs32 s.mem pb.toNat 12) (Thumb1.limbs32 s.mem pp.toNat 12) inv.toNat := by
+  have hAB : val (2 ^ 32) (Thumb1.limbs32 s.mem pa.toNat 12) * val (2 ^ 32) (Thumb1.limbs32 s.mem pb.toNat 12) < val (2 ^ 32) (Thumb1.limbs32 s.mem pp.toNat 12) * 2 ^ 384 :=
+    Nat.mul_lt_mul'' hA (limbs32_lt' s.mem pb.toNat)
+  obtain ⟨-, hlt, hmod, -⟩ := armv6m_fpbase_384_multiply s pr pa pb pp inv fuel hfuel hst hpc h0 h1 h2 h3 hlr h4 hcw hr ha hb hp hstk hrs has hbs hps hinv hAB h2P
+  obtain ⟨w, l, plt, pmod⟩ := C02.fp_multiply (B := 2 ^ 32) (n := 12) (inv := inv.toNat) (Thumb1.limbs32_WF s.mem pa.toNat 12)
+    (Thumb1.limbs32_WF s.mem pb.toNat 12) (Thumb1.limbs32_WF s.mem pp.toNat 12) (Thumb1.limbs32_length _ _ _) (by omega) (Thumb1.limbs32_length _ _ _)
+    (Thumb1.limbs32_length _ _ _) hinv hA hB (by rw [pow32_12']; exact h2P)
+  rw [pow32_12'] at pmod
+  exact val_inj (Thumb1.limbs32_WF _ _ _) w (by rw [l, Thumb1.limbs32_length]) (mont_unique hinv hlt plt hmod pmod)
+
+/-- … and the number the AArch64 routine (`C03.aarch64_fpbase_384_multiply`) leaves, on states with the same `a`, `b`, `P`. -/
+theorem armv6m_fpbase_384_multiply_agrees_aarch64 (s₁ : Thumb1.State) (s₂ : A64.State) (pr₁ pa₁ pb₁ pp₁ inv₁ : Thumb1.Word) (pr₂ pa₂ pb₂ pp₂ inv₂ : A64.Word)
+    (f₁ f₂ : Nat) (hf₁ : 7123 ≤ f₁) (hf₂ : 407 ≤ f₂)
+    (hst₁ : s₁.status = .running) (hpc₁ : s₁.pc = 0) (h0₁ : s₁.r0 = pr₁) (h1₁ : s₁.r1 = pa₁) (h2₁ : s₁.r2 = pb₁) (h3₁ : s₁.r3 = pp₁) (hlr₁ : s₁.lr.toNat % 2 = 1)
+    (h4₁ : s₁.mem s₁.sp.toNat = inv₁) (hcw₁ : s₁.readable s₁.sp.toNat = true) (hr₁ : Thumb1.Buf s₁ pr₁ 12 true) (ha₁ : Thumb1.Buf s₁ pa₁ 12 false) (hb₁ : Thumb1.Buf s₁ pb₁ 12 false)
+    (hp₁ : Thumb1.Buf s₁ pp₁ 12 false) (hstk₁ : Thumb1.Stack s₁ 33) (hrs₁ : Thumb1.OffStack s₁ 33 pr₁ 12) (has₁ : Thumb1.OffStack s₁ 33 pa₁ 12) (hbs₁ : Thumb1.OffStack s₁ 33 pb₁ 12)
+    (hps₁ : Thumb1.OffStack s₁ 33 pp₁ 12) (hinv₁ : (inv₁.toNat * val (2 ^ 32) (Thumb1.limbs32 s₁.mem pp₁.toNat 12) + 1) % 2 ^ 32 = 0) (hAB₁ : val (2 ^ 32) (Thumb1.limbs32 s₁.mem pa₁.toNat 12) * val (2 ^ 32) (Thumb1.limbs32 s₁.mem pb₁.toNat 12) < val (2 ^ 32) (Thumb1.limbs32 s₁.mem pp₁.toNat 12) * 2 ^ 384)
+    (h2P₁ : 2 * val (2 ^ 32) (Thumb1.limbs32 s₁.mem pp₁.toNat 12) ≤ 2 ^ 384)
+    (hst₂ : s₂.status = .running) (hpc₂ : s₂.pc = 0) (h0₂ : s₂.x0 = pr₂) (h1₂ : s₂.x1 = pa₂) (h2₂ : s₂.x2 = pb₂) (h3₂ : s₂.x3 = pp₂) (h4₂ : s₂.x4 = inv₂)
+    (hr₂ : A64.Buf s₂ pr₂ 6 true) (ha₂ : A64.Buf s₂ pa₂ 6 false) (hb₂ : A64.Buf s₂ pb₂ 6 false) (hp₂ : A64.Buf s₂ pp₂ 6 false)
+    (hstk₂ : A64.Stack s₂ 6) (hrs₂ : A64.OffStack s₂ 6 pr₂ 6) (has₂ : A64.OffStack s₂ 6 pa₂ 6) (hbs₂ : A64.OffStack s₂ 6 pb₂ 6) (hps₂ : A64.OffStack s₂ 6 pp₂ 6)
+    (hinv₂ : (inv₂.toNat * val (2 ^ 64) (limbs s₂.mem pp₂.toNat 6) + 1) % 2 ^ 64 = 0)
+    (hAe : val (2 ^ 32) (Thumb1.limbs32 s₁.mem pa₁.toNat 12) = val (2 ^ 64) (limbs s₂.mem pa₂.toNat 6))
+    (hBe : val (2 ^ 32) (Thumb1.limbs32 s₁.mem pb₁.toNat 12) = val (2 ^ 64) (limbs s₂.mem pb₂.toNat 6))
+    (hPe : val (2 ^ 32) (Thumb1.limbs32 s₁.mem pp₁.toNat 12) = val (2 ^ 64) (limbs s₂.mem pp₂.toNat 6)) :
+    val (2 ^ 32) (Thumb1.limbs32 (Thumb1.run embedded_pairing_core_arch_armv6_m_fpbase_384_multiply s₁ f₁).mem pr₁.toNat 12)
+      = val (2 ^ 64) (limbs (A64.run Gen.AsmA64.embedded_pairing_core_arch_aarch64_fpbase_384_multiply s₂ f₂).mem pr₂.toNat 6) := by
+  obtain ⟨-, l1, m1, -⟩ := armv6m_fpbase_384_multiply s₁ pr₁ pa₁ pb₁ pp₁ inv₁ f₁ hf₁ hst₁ hpc₁ h0₁ h1₁ h2₁ h3₁ hlr₁ h4₁ hcw₁ hr₁ ha₁ hb₁ hp₁ hstk₁ hrs₁ has₁ hbs₁ hps₁ hinv₁ hAB₁ h2P₁
+  obtain ⟨-, l2, m2, -⟩ := aarch64_fpbase_384_multiply s₂ pr₂ pa₂ pb₂ pp₂ inv₂ f₂ hf₂ hst₂ hpc₂ h0₂ h1₂ h2₂ h3₂ h4₂ hr₂ ha₂ hb₂ hp₂ hstk₂ hrs₂ has₂ hbs₂ hps₂ hinv₂
+    (by rw [← hAe, ← hBe, ← hPe]; exact hAB₁) (by rw [← hPe]; exact h2P₁)
+  rw [← hPe] at l2 m2; rw [← hAe, ← hBe] at m2
+  exact mont_unique hinv₁ l1 l2 m1 m2
+
+/-- ARMv6-M `fpbase_384_square`: `res < P` and `res · 2^384 ≡ a² (mod P)`; `res` may overlap `a` in any way. -/
+theorem armv6m_fpbase_384_square (s : Thumb1.State) (pr pa pp inv : Thumb1.Word) (fuel : Nat) (hfuel : 5457 ≤ fuel)
+    (hst : s.status = .running) (hpc : s.pc = 0) (h0 : s.r0 = pr) (h1 : s.r1 = pa) (h2 : s.r2 = pp) (h3 : s.r3 = inv) (hlr : s.lr.toNat % 2 = 1) (hr : Thumb1.Buf s pr 12 true)
+    (ha : Thumb1.Buf s pa 12 false) (hp : Thumb1.Buf s pp 12 false) (hstk : Thumb1.Stack s 33) (hrs : Thumb1.OffStack s 33 pr 12) (has : Thumb1.OffStack s 33 pa 12)
+    (hps : Thumb1.OffStack s 33 pp 12) (hinv : (inv.toNat * val (2 ^ 32) (Thumb1.limbs32 s.mem pp.toNat 12) + 1) % 2 ^ 32 = 0) (hAB : val (2 ^ 32) (Thumb1.limbs32 s.mem pa.toNat 12) * val (2 ^ 32) (Thumb1.limbs32 s.mem pa.toNat 12) < val (2 ^ 32) (Thumb1.limbs32 s.mem pp.toNat 12) * 2 ^ 384)
+    (h2P : 2 * val (2 ^ 32) (Thumb1.limbs32 s.mem pp.toNat 12) ≤ 2 ^ 384) :
+    Thumb1.Returned s (Thumb1.run embedded_pairing_core_arch_armv6_m_fpbase_384_square s fuel) ∧
+    val (2 ^ 32) (Thumb1.limbs32 (Thumb1.run embedded_pairing_core_arch_armv6_m_fpbase_384_square s fuel).mem pr.toNat 12) < val (2 ^ 32) (Thumb1.limbs32 s.mem pp.toNat 12) ∧
+    (val (2 ^ 32) (Thumb1.limbs32 (Thumb1.run embedded_pairing_core_arch_armv6_m_fpbase_384_square s fuel).mem pr.toNat 12) * 2 ^ 384) % val (2 ^ 32) (Thumb1.limbs32 s.mem pp.toNat 12)
+      = (val (2 ^ 32) (Thumb1.limbs32 s.mem pa.toNat 12) * val (2 ^ 32) (Thumb1.limbs32 s.mem pa.toNat 12)) % val (2 ^ 32) (Thumb1.limbs32 s.mem pp.toNat 12) ∧
+    (∀ k, ¬(pr.toNat ≤ k ∧ k < pr.toNat + 48) → ¬(s.sp.toNat - 132 ≤ k ∧ k < s.sp.toNat) →
+      (Thumb1.run embedded_pairing_core_arch_armv6_m_fpbase_384_square s fuel).mem k = s.mem k) ∧
+    (Thumb1.run embedded_pairing_core_arch_armv6_m_fpbase_384_square s fuel).callSpMisaligned = (s.callSpMisaligned || (s.sp.toNat - 132) % 8 != 0) := by
+  obtain ⟨s', h, hret, rest⟩ := Thumb1.fpbase_384_square_run s pr pa pp inv hst hpc h0 h1 h2 h3 hlr hr ha hp hstk hrs has hps hinv hAB h2P
+  rw [Thumb1.run_fuel h hret.halted fuel hfuel]
+  exact ⟨hret, rest⟩
+
+/-- … hence, for `a < P`, the limbs of the portable `FpBase::square` at base 2^32 (model `fpSqr`, contract `C02.fp_square`) — and of
+`multiply(a, a)` (`C02.fp_square_eq_multiply`). -/
+theorem armv6m_fpbase_384_square_eq_portable (s : Thumb1.State) (pr pa pp inv : Thumb1.Word) (fuel : Nat) (hfuel : 5457 ≤ fuel)
+    (hst : s.status = .running) (hpc : s.pc = 0) (h0 : s.r0 = pr) (h1 : s.r1 = pa) (h2 : s.r2 = pp) (h3 : s.r3 = inv) (hlr : s.lr.toNat % 2 = 1) (hr : Thumb1.Buf s pr 12 true)
+    (ha : Thumb1.Buf s pa 12 false) (hp : Thumb1.Buf s pp 12 false) (hstk : Thumb1.Stack s 33) (hrs : Thumb1.OffStack s 33 pr 12) (has : Thumb1.OffStack s 33 pa 12)
+    (hps : Thumb1.OffStack s 33 pp 12) (hinv : (inv.toNat * val (2 ^ 32) (Thumb1.limbs32 s.mem pp.toNat 12) + 1) % 2 ^ 32 = 0) (hA : val (2 ^ 32) (Thumb1.limbs32 s.mem pa.toNat 12) < val (2 ^ 32) (Thumb1.limbs32 s.mem pp.toNat 12))
+    (h2P : 2 * val (2 ^ 32) (Thumb1.limbs32 s.mem pp.toNat 12) ≤ 2 ^ 384) :
+    Thumb1.limbs32 (Thumb1.run embedded_pairing_core_arch_armv6_m_fpbase_384_square s fuel).mem pr.toNat 12
+      = fpSqr (2 ^ 32) 12 (Thumb1.limbs32 s.mem pa.toNat 12) (Thumb1.limbs32 s.mem pp.toNat 12) inv.toNat := by
+  have hAB : val (2 ^ 32) (Thumb1.limbs32 s.mem pa.toNat 12) * val (2 ^ 32) (Thumb1.limbs32 s.mem pa.toNat 12) < val (2 ^ 32) (Thumb1.limbs32 s.mem pp.toNat 12) * 2 ^ 384 :=
+    Nat.mul_lt_mul'' hA (limbs32_lt' s.mem pa.toNat)
+  obtain ⟨-, hlt, hmod, -⟩ := armv6m_fpbase_384_square s pr pa pp inv fuel hfuel hst hpc h0 h1 h2 h3 hlr hr ha hp hstk hrs has hps hinv hAB h2P
+  obtain ⟨w, l, plt, pmod⟩ := C02.fp_square (B := 2 ^ 32) (n := 12) (inv := inv.toNat) (by norm_num) (Thumb1.limbs32_WF s.mem pa.toNat 12)
+    (Thumb1.limbs32_WF s.mem pp.toNat 12) (Thumb1.limbs32_length _ _ _) (by omega) (Thumb1.limbs32_length _ _ _) hinv hA
+    (by rw [pow32_12']; exact h2P)
+  rw [pow32_12'] at pmod
+  exact val_inj (Thumb1.limbs32_WF _ _ _) w (by rw [l, Thumb1.limbs32_length]) (mont_unique hinv hlt plt hmod pmod)
+
+/-- … and the number the AArch64 routine (`C03.aarch64_fpbase_384_square`) leaves, on states with the same `a`, `P`. -/
+theorem armv6m_fpbase_384_square_agrees_aarch64 (s₁ : Thumb1.State) (s₂ : A64.State) (pr₁ pa₁ pp₁ inv₁ : Thumb1.Word) (pr₂ pa₂ pp₂ inv₂ : A64.Word)
+    (f₁ f₂ : Nat) (hf₁ : 5457 ≤ f₁) (hf₂ : 334 ≤ f₂)
+    (hst₁ : s₁.status = .running) (hpc₁ : s₁.pc = 0) (h0₁ : s₁.r0 = pr₁) (h1₁ : s₁.r1 = pa₁) (h2₁ : s₁.r2 = pp₁) (h3₁ : s₁.r3 = inv₁) (hlr₁ : s₁.lr.toNat % 2 = 1)
+    (hr₁ : Thumb1.Buf s₁ pr₁ 12 true) (ha₁ : Thumb1.Buf s₁ pa₁ 12 false) (hp₁ : Thumb1.Buf s₁ pp₁ 12 false) (hstk₁ : Thumb1.Stack s₁ 33) (hrs₁ : Thumb1.OffStack s₁ 33 pr₁ 12)
+    (has₁ : Thumb1.OffStack s₁ 33 pa₁ 12) (hps₁ : Thumb1.OffStack s₁ 33 pp₁ 12) (hinv₁ : (inv₁.toNat * val (2 ^ 32) (Thumb1.limbs32 s₁.mem pp₁.toNat 12) + 1) % 2 ^ 32 = 0)
+    (hAB₁ : val (2 ^ 32) (Thumb1.limbs32 s₁.mem pa₁.toNat 12) * val (2 ^ 32) (Thumb1.limbs32 s₁.mem pa₁.toNat 12) < val (2 ^ 32) (Thumb1.limbs32 s₁.mem pp₁.toNat 12) * 2 ^ 384)
+    (h2P₁ : 2 * val (2 ^ 32) (Thumb1.limbs32 s₁.mem pp₁.toNat 12) ≤ 2 ^ 384)
+    (hst₂ : s₂.status = .running) (hpc₂ : s₂.pc = 0) (h0₂ : s₂.x0 = pr₂) (h1₂ : s₂.x1 = pa₂) (h2₂ : s₂.x2 = pp₂) (h3₂ : s₂.x3 = inv₂)
+    (hr₂ : A64.Buf s₂ pr₂ 6 true) (ha₂ : A64.Buf s₂ pa₂ 6 false) (hp₂ : A64.Buf s₂ pp₂ 6 false)
+    (hstk₂ : A64.Stack s₂ 5) (hrs₂ : A64.OffStack s₂ 5 pr₂ 6) (has₂ : A64.OffStack s₂ 5 pa₂ 6) (hps₂ : A64.OffStack s₂ 5 pp₂ 6)
+    (hinv₂ : (inv₂.toNat * val (2 ^ 64) (limbs s₂.mem pp₂.toNat 6) + 1) % 2 ^ 64 = 0)
+    (hAe : val (2 ^ 32) (Thumb1.limbs32 s₁.mem pa₁.toNat 12) = val (2 ^ 64) (limbs s₂.mem pa₂.toNat 6))
+    (hPe : val (2 ^ 32) (Thumb1.limbs32 s₁.mem pp₁.toNat 12) = val (2 ^ 64) (limbs s₂.mem pp₂.toNat 6)) :
+    val (2 ^ 32) (Thumb1.limbs32 (Thumb1.run embedded_pairing_core_arch_armv6_m_fpbase_384_square s₁ f₁).mem pr₁.toNat 12)
+      = val (2 ^ 64) (limbs (A64.run Gen.AsmA64.embedded_pairing_core_arch_aarch64_fpbase_384_square s₂ f₂).mem pr₂.toNat 6) := by
+  obtain ⟨-, l1, m1, -⟩ := armv6m_fpbase_384_square s₁ pr₁ pa₁ pp₁ inv₁ f₁ hf₁ hst₁ hpc₁ h0₁ h1₁ h2₁ h3₁ hlr₁ hr₁ ha₁ hp₁ hstk₁ hrs₁ has₁ hps₁ hinv₁ hAB₁ h2P₁
+  obtain ⟨-, l2, m2, -⟩ := aarch64_fpbase_384_square s₂ pr₂ pa₂ pp₂ inv₂ f₂ hf₂ hst₂ hpc₂ h0₂ h1₂ h2₂ h3₂ hr₂ ha₂ hp₂ hstk₂ hrs₂ has₂ hps₂ hinv₂
+    (by rw [← hAe, ← hPe]; exact hAB₁) (by rw [← hPe]; exact h2P₁)
+  rw [← hPe] at l2 m2; rw [← hAe] at m2
+  exact mont_unique hinv₁ l1 l2 m1 m2
+
+/-! ## Non-vacuity: concrete entry states satisfy all hypotheses
+
+The states are the ones the judge builds (`Thumb1.entryState`): arguments in R0–R3 (a fifth one on the stack), the other registers
+poisoned, flags unknown, a 64-word stack below SP, one readable word of the caller's frame at SP where the routine reads it.  Every
+hypothesis is discharged by evaluation.  Operands `q − 1`, `q − 2` (BLS12-381 base-field modulus `q`), `inv` = the low 32 bits of
+the library's constant `fq_inv`; the result object is aliased with an operand. -/
+
+section Examples
+private def exA : Nat := Gen.Consts.fq_modulus - 1
+private def exB : Nat := Gen.Consts.fq_modulus - 2
+private def exInv : Nat := Gen.Consts.fq_inv % 2 ^ 32
+
+private theorem buf_of (s : Thumb1.State) (p n : Nat) (w : Bool) (h1 : p + 4 * n ≤ 2 ^ 32) (h2 : p % 4 = 0) (h3 : p < 2 ^ 32)
+    (hr : ∀ i, i < n → s.readable (p + 4 * i) = true)
+    (hw : w = true → ∀ i, i < n → s.writable (p + 4 * i) = true) : Thumb1.Buf s (BitVec.ofNat 32 p) n w := by
+  have e : (BitVec.ofNat 32 p).toNat = p := by rw [BitVec.toNat_ofNat]; exact Nat.mod_eq_of_lt h3
+  exact ⟨by rw [e]; exact h1, by rw [e]; exact h2, by rw [e]; exact hr, by rw [e]; exact hw⟩
+
+private theorem stack_of (s : Thumb1.State) (n : Nat) (h2 : s.sp.toNat % 4 = 0) (h3 : 4 * n ≤ s.sp.toNat)
+    (h5 : ∀ i, i < n → s.readable (s.sp.toNat - 4 * (i + 1)) = true ∧ s.writable (s.sp.toNat - 4 * (i + 1)) = true) :
+    Thumb1.Stack s n :=
+  ⟨h2, h3, fun i hi1 hi2 => by
+    have := h5 (i - 1) (by omega)
+    rwa [show i - 1 + 1 = i by omega] at this⟩
+
+/-- multiply / square: `res` (24 words) starts where `a` starts -/
+private def exMul : Thumb1.State :=
+  Thumb1.entryState ([0x20000, 0x20000, 0x21000].map (BitVec.ofNat 32))
+    [{ base := 0x20000, words := Thumb1.wordsOfNat 24 exA, writable := true },
+     { base := 0x21000, words := Thumb1.wordsOfNat 12 exB, writable := false }] 0x20004000 64 1
+
+example :
+    val (2 ^ 32) (Thumb1.limbs32 (Thumb1.run embedded_pairing_core_arch_armv6_m_bigint_768_multiply exMul 4000).mem 0x20000 24) = exA * exB ∧
+    val (2 ^ 32) (Thumb1.limbs32 (Thumb1.run embedded_pairing_core_arch_armv6_m_bigint_768_square exMul 2000).mem 0x20000 24) = exA * exA := by
+  have hyp1 : Thumb1.Buf exMul (BitVec.ofNat 32 0x20000) 24 true :=
+    buf_of _ _ _ _ (by decide) (by decide) (by decide) (by decide) (fun _ => by decide)
+  have hyp2 : Thumb1.Buf exMul (BitVec.ofNat 32 0x20000) 12 false :=
+    buf_of _ _ _ _ (by decide) (by decide) (by decide) (by decide) (by decide)
+  have hyp3 : Thumb1.Buf exMul (BitVec.ofNat 32 0x21000) 12 false :=
+    buf_of _ _ _ _ (by decide) (by decide) (by decide) (by decide) (by decide)
+  have h1 := (armv6m_bigint_768_multiply exMul (BitVec.ofNat 32 0x20000) (BitVec.ofNat 32 0x20000) (BitVec.ofNat 32 0x21000) 4000
+    (by decide) rfl rfl rfl rfl rfl (by decide) hyp1 hyp2 hyp3
+    (stack_of _ _ (by decide) (by decide) (by decide)) (by decide)
+    (by unfold Thumb1.OffStack; decide) (by unfold Thumb1.OffStack; decide) (by unfold Thumb1.OffStack; decide)).2.1
+  have h2 := (armv6m_bigint_768_square exMul (BitVec.ofNat 32 0x20000) (BitVec.ofNat 32 0x20000) 2000
+    (by decide) rfl rfl rfl rfl (by decide) hyp1 hyp2
+    (stack_of _ _ (by decide) (by decide) (by decide))
+    (by unfold Thumb1.OffStack; decide) (by unfold Thumb1.OffStack; decide)).2.1
+  rw [show (BitVec.ofNat 32 0x20000).toNat = 0x20000 by decide] at h1 h2
+  rw [show (BitVec.ofNat 32 0x21000).toNat = 0x21000 by decide] at h1
+  have ea : val (2 ^ 32) (Thumb1.limbs32 exMul.mem 0x20000 12) = exA := by decide
+  have eb : val (2 ^ 32) (Thumb1.limbs32 exMul.mem 0x21000 12) = exB := by decide
+  rw [ea, eb] at h1
+  rw [ea] at h2
+  exact ⟨h1, h2⟩
+
+/-- montgomery_reduce: `res` is the low half of the 24-word object holding `T`; `inv` in R3 -/
+private def exRed : Thumb1.State :=
+  Thumb1.entryState ([0x20000, 0x20000, 0x30000].map (BitVec.ofNat 32) ++ [BitVec.ofNat 32 exInv])
+    [{ base := 0x20000, words := Thumb1.wordsOfNat 24 (exA * exB), writable := true },
+     { base := 0x30000, words := Thumb1.wordsOfNat 12 Gen.Consts.fq_modulus, writable := false }] 0x20004000 64 0
+
+example :
+    val (2 ^ 32) (Thumb1.limbs32 (Thumb1.run embedded_pairing_core_arch_armv6_m_fpbase_384_montgomery_reduce exRed 4000).mem 0x20000 12)
+      < Gen.Consts.fq_modulus ∧
+    (val (2 ^ 32) (Thumb1.limbs32 (Thumb1.run embedded_pairing_core_arch_armv6_m_fpbase_384_montgomery_reduce exRed 4000).mem 0x20000 12)
+      * 2 ^ 384) % Gen.Consts.fq_modulus = (exA * exB) % Gen.Consts.fq_modulus := by
+  have hP : val (2 ^ 32) (Thumb1.limbs32 exRed.mem (BitVec.ofNat 32 0x30000).toNat 12) = Gen.Consts.fq_modulus := by decide
+  have hTv : val (2 ^ 32) (Thumb1.limbs32 exRed.mem (BitVec.ofNat 32 0x20000).toNat 24) = exA * exB := by decide
+  have h1 := armv6m_fpbase_384_montgomery_reduce exRed (BitVec.ofNat 32 0x20000) (BitVec.ofNat 32 0x20000) (BitVec.ofNat 32 0x30000) (BitVec.ofNat 32 exInv) 4000
+    (by decide) rfl rfl rfl rfl rfl rfl (by decide)
+    (buf_of _ _ _ _ (by decide) (by decide) (by decide) (by decide) (fun _ => by decide)) (buf_of _ _ _ _ (by decide) (by decide) (by decide) (by decide) (by decide))
+    (buf_of _ _ _ _ (by decide) (by decide) (by decide) (by decide) (by decide))
+    (stack_of _ _ (by decide) (by decide) (by decide))
+    (by unfold Thumb1.OffStack; decide) (by unfold Thumb1.OffStack; decide) (by unfold Thumb1.OffStack; decide)
+    (by rw [hP]; decide) (by rw [hP, hTv]; decide) (by rw [hP]; decide)
+  rw [hP, hTv] at h1
+  rw [show (BitVec.ofNat 32 0x20000).toNat = 0x20000 by decide] at h1
+  exact ⟨h1.2.1, h1.2.2.1⟩
+
+/-- the fused multiply: `res` is the same object as `a`; `p` a read-only object, `inv` the fifth argument (on the stack) -/
+private def exFpMul : Thumb1.State :=
+  Thumb1.entryState ([0x20000, 0x20000, 0x21000, 0x30000].map (BitVec.ofNat 32) ++ [BitVec.ofNat 32 exInv])
+    [{ base := 0x20000, words := Thumb1.wordsOfNat 12 exA, writable := true },
+     { base := 0x21000, words := Thumb1.wordsOfNat 12 exB, writable := false },
+     { base := 0x30000, words := Thumb1.wordsOfNat 12 Gen.Consts.fq_modulus, writable := false }] 0x20004000 64 0
+
+/-- the fused square: `res` is the same object as `a`; `inv` in R3 -/
+private def exFpSqr : Thumb1.State :=
+  Thumb1.entryState ([0x20000, 0x20000, 0x30000].map (BitVec.ofNat 32) ++ [BitVec.ofNat 32 exInv])
+    [{ base := 0x20000, words := Thumb1.wordsOfNat 12 exA, writable := true },
+     { base := 0x30000, words := Thumb1.wordsOfNat 12 Gen.Consts.fq_modulus, writable := false }] 0x20004000 64 0
+
+example :
+    (val (2 ^ 32) (Thumb1.limbs32 (Thumb1.run embedded_pairing_core_arch_armv6_m_fpbase_384_multiply exFpMul 8000).mem 0x20000 12)
+      < Gen.Consts.fq_modulus ∧
+     (val (2 ^ 32) (Thumb1.limbs32 (Thumb1.run embedded_pairing_core_arch_armv6_m_fpbase_384_multiply exFpMul 8000).mem 0x20000 12)
+      * 2 ^ 384) % Gen.Consts.fq_modulus = (exA * exB) % Gen.Consts.fq_modulus) ∧
+    (val (2 ^ 32) (Thumb1.limbs32 (Thumb1.run embedded_pairing_core_arch_armv6_m_fpbase_384_square exFpSqr 6000).mem 0x20000 12)
+      < Gen.Consts.fq_modulus ∧
+     (val (2 ^ 32) (Thumb1.limbs32 (Thumb1.run embedded_pairing_core_arch_armv6_m_fpbase_384_square exFpSqr 6000).mem 0x20000 12)
+      * 2 ^ 384) % Gen.Consts.fq_modulus = (exA * exA) % Gen.Consts.fq_modulus) := by
+  have hP1 : val (2 ^ 32) (Thumb1.limbs32 exFpMul.mem (BitVec.ofNat 32 0x30000).toNat 12) = Gen.Consts.fq_modulus := by decide
+  have hA1 : val (2 ^ 32) (Thumb1.limbs32 exFpMul.mem (BitVec.ofNat 32 0x20000).toNat 12) = exA := by decide
+  have hB1 : val (2 ^ 32) (Thumb1.limbs32 exFpMul.mem (BitVec.ofNat 32 0x21000).toNat 12) = exB := by decide
+  have hP2 : val (2 ^ 32) (Thumb1.limbs32 exFpSqr.mem (BitVec.ofNat 32 0x30000).toNat 12) = Gen.Consts.fq_modulus := by decide
+  have hA2 : val (2 ^ 32) (Thumb1.limbs32 exFpSqr.mem (BitVec.ofNat 32 0x20000).toNat 12) = exA := by decide
+  have h1 := armv6m_fpbase_384_multiply exFpMul (BitVec.ofNat 32 0x20000) (BitVec.ofNat 32 0x20000) (BitVec.ofNat 32 0x21000) (BitVec.ofNat 32 0x30000) (BitVec.ofNat 32 exInv) 8000
+    (by decide) rfl rfl rfl rfl rfl rfl (by decide) (by decide) (by decide)
+    (buf_of _ _ _ _ (by decide) (by decide) (by decide) (by decide) (fun _ => by decide)) (buf_of _ _ _ _ (by decide) (by decide) (by decide) (by decide) (by decide))
+    (buf_of _ _ _ _ (by decide) (by decide) (by decide) (by decide) (by decide)) (buf_of _ _ _ _ (by decide) (by decide) (by decide) (by decide) (by decide))
+    (stack_of _ _ (by decide) (by decide) (by decide))
+    (by unfold Thumb1.OffStack; decide) (by unfold Thumb1.OffStack; decide) (by unfold Thumb1.OffStack; decide) (by unfold Thumb1.OffStack; decide)
+    (by rw [hP1]; decide) (by rw [hP1, hA1, hB1]; decide) (by rw [hP1]; decide)
+  have h2 := armv6m_fpbase_384_square exFpSqr (BitVec.ofNat 32 0x20000) (BitVec.ofNat 32 0x20000) (BitVec.ofNat 32 0x30000) (BitVec.ofNat 32 exInv) 6000
+    (by decide) rfl rfl rfl rfl rfl rfl (by decide)
+    (buf_of _ _ _ _ (by decide) (by decide) (by decide) (by decide) (fun _ => by decide)) (buf_of _ _ _ _ (by decide) (by decide) (by decide) (by decide) (by decide))
+    (buf_of _ _ _ _ (by decide) (by decide) (by decide) (by decide) (by decide))
+    (stack_of _ _ (by decide) (by decide) (by decide))
+    (by unfold Thumb1.OffStack; decide) (by unfold Thumb1.OffStack; decide) (by unfold Thumb1.OffStack; decide)
+    (by rw [hP2]; decide) (by rw [hP2, hA2]; decide) (by rw [hP2]; decide)
+  rw [hP1, hA1, hB1] at h1
+  rw [hP2, hA2] at h2
+  rw [show (BitVec.ofNat 32 0x20000).toNat = 0x20000 by decide] at h1 h2
+  exact ⟨⟨h1.2.1, h1.2.2.1⟩, ⟨h2.2.1, h2.2.2.1⟩⟩
+end Examples
 
 end Jedi.C03
